@@ -39,7 +39,7 @@ def texts(rng, n):
             t = rng.choice(["lyric ", "section "]) + "".join(rng.choice(gen.TEXT_ATOMS) for _ in range(rng.randint(0, 4)))
         else:
             t = rng.choice(["la", "Intro 1", "phrase_start", "lyric", "section", "lyricx", "lyric\tx", "sectionIntro", " lyric x",
-                            "Lyric x", "lyric  two", "section \"A\"", "lyric \"", "lyric a\" ", "\"", "", " "])
+                            "Lyric x", "Section 2 starts", "LYRIC video on", "SECTION", "ſection x", "lyric  two", "section \"A\"", "lyric \"", "lyric a\" ", "\"", "", " "])
         out.append(t.replace("\n", ""))
     return out
 
